@@ -1387,6 +1387,211 @@ def check_update_input(chk, F):
     chk.floor(R, "cases", n, 140)
 
 
+# ---- R14.14 extract / interpreter_check ------------------------------------------------------------------------------------------
+
+def check_extract(chk, F):
+    import itertools
+    from ..builtins import deref
+    R = "R14.14"
+    chk.rule(R, "PsbtExt::extract on model PSBTs (2 inputs): fails when the PSBT is not well formed (sanity_check), when some "
+                "input has neither final field, and when interpreter_check refuses; otherwise returns the unsigned transaction "
+                "in which every input carries its own final scriptSig / witness (the other kept as it was) and nothing else is "
+                "changed; interpreter_check runs interpreter_inp_check for every input, in order, on that input's own final "
+                "scriptSig / witness (an empty one for a missing field) and the PSBT's prevouts, and passes any refusal on")
+    try:
+        ext = [it["path"] for i in F.impls if (i["trait"] or "").endswith("PsbtExt") and (i.get("self_ty") or "").endswith("Psbt")
+               for it in i["items"] if it["name"] == "extract"]
+        if len(ext) != 1:
+            raise KeyError("PsbtExt::extract")
+        ext = ext[0]
+        sanity = F.fn("sanity_check", file="psbt/mod.rs")
+        ichk = F.fn("interpreter_check", file="psbt/finalizer.rs")
+        inp = F.fn("interpreter_inp_check", file="psbt/finalizer.rs")
+        prev = F.fn("prevouts", file="psbt/finalizer.rs")
+    except KeyError as e:
+        chk.fail(R, "anchor", "missing anchor: %s" % e, kind="unanalysable")
+        return
+    chk.saw(ext, sanity, ichk)
+    n = 0
+    opts = [(NONE, NONE), (some("SIG"), NONE), (NONE, some("WIT")), (some("SIG"), some("WIT"))]
+    try:
+        for (a0, a1), sane, interp in itertools.product(itertools.product(range(4), repeat=2), (True, False), (True, False)):
+            ins = []
+            for i, o in enumerate((a0, a1)):
+                fs, fw = opts[o]
+                ins.append(mk_input(i, some("sig%d" % i) if fs.variant == "Some" else NONE, some("wit%d" % i) if fw.variant == "Some" else NONE))
+            ps = mk_psbt(2, 0, [1, 2], ins)
+            seen = []
+            hooks = {sanity: lambda m_, a, c, sane=sane: ok(()) if sane else err(Term("NOT-SANE")),
+                     ichk: lambda m_, a, c, interp=interp: (seen.append(deref(a[0])), ok(()) if interp else err(Term("REFUSED")))[1]}
+            m = Machine(F, strict=True, hooks=hooks)
+            r = m.call_callee({"def": ext, "resolved": ext, "name": "extract", "targs": ["C"]}, [ps, Term("secp")])
+            n += 1
+            key = "extract|finals=%d,%d|sane=%s|interpreter=%s" % (a0, a1, sane, interp)
+            missing = [i for i, o in enumerate((a0, a1)) if o == 0]
+            want_ok = sane and interp and not missing
+            bad = []
+            if (r.variant == "Ok") != want_ok:
+                bad.append("result %s, expected %s" % (repr(r)[:120], "Ok" if want_ok else "an error"))
+            elif r.variant == "Ok":
+                tx = deref(r.fields["0"])
+                for i, txin in enumerate(deref(tx.fields["input"]).items):
+                    txin = deref(txin)
+                    fs, fw = opts[(a0, a1)[i]]
+                    ws = "sig%d" % i if fs.variant == "Some" else repr(Term("ssig"))
+                    ww = "wit%d" % i if fw.variant == "Some" else repr(Term("wit"))
+                    gs, gw = deref(txin.fields["script_sig"]), deref(txin.fields["witness"])
+                    if (gs if isinstance(gs, str) else repr(gs)) != ws or (gw if isinstance(gw, str) else repr(gw)) != ww:
+                        bad.append("input %d carries (scriptSig %r, witness %r), expected (%s, %s)" % (i, gs, gw, ws, ww))
+                    if txin.fields["sequence"] != i + 1 or repr(txin.fields["previous_output"]) != repr(Term("outpoint", i)):
+                        bad.append("input %d: sequence / outpoint changed" % i)
+                if repr(tx.fields["version"]) != repr(ps.fields["unsigned_tx"].fields["version"]) or tx.fields["lock_time"] != 0:
+                    bad.append("version / lock time changed")
+                if len(seen) != 1 or seen[0] is not ps:
+                    bad.append("interpreter_check ran %d time(s) / not on this PSBT" % len(seen))
+            elif not sane and "NOT-SANE" not in repr(r):
+                bad.append("a malformed PSBT is refused with %s" % repr(r)[:100])
+            elif sane and missing and not ("MissingWitness" in repr(r)):
+                bad.append("an input without final fields is refused with %s" % repr(r)[:100])
+            chk.obligation(R, not bad, key, "; ".join(bad[:2]), where="src/psbt/mod.rs")
+        # interpreter_check
+        for (a0, a1), failing, utxo_ok in itertools.product(itertools.product(range(4), repeat=2), (None, 0, 1), (True, False)):
+            ins = []
+            for i, o in enumerate((a0, a1)):
+                fs, fw = opts[o]
+                ins.append(mk_input(i, some(Bytes("sig%d" % i, False)) if fs.variant == "Some" else NONE,
+                                    some(Bytes("wit%d" % i, False)) if fw.variant == "Some" else NONE))
+            ps = mk_psbt(2, 0, [1, 2], ins)
+            calls = []
+
+            def inp_hook(m_, a, c, failing=failing):
+                calls.append((deref(a[2]), deref(a[4]), deref(a[5]), deref(a[0]) is ps, repr(deref(a[3]))))
+                return err(Term("REFUSED", deref(a[2]))) if deref(a[2]) == failing else ok(())
+            hooks = {inp: inp_hook, prev: lambda m_, a, c, u=utxo_ok: ok(PyVec(["utxo0", "utxo1"])) if u else err(Term("NO-UTXO"))}
+            m = Machine(F, strict=True, hooks=hooks)
+            m.hooks["bitcoin::ScriptBuf::new"] = lambda m_, a, c: Bytes("empty-script", True)
+            m.hooks["<bitcoin::Witness as std::default::Default>::default"] = lambda m_, a, c: Bytes("empty-witness", True)
+            m.hooks["bitcoin::Witness::default"] = m.hooks["<bitcoin::Witness as std::default::Default>::default"]
+            m.hooks["bitcoin::Witness::new"] = m.hooks["<bitcoin::Witness as std::default::Default>::default"]
+            m.hooks["bitcoin::Witness::to_vec"] = lambda m_, a, c: ("vec-of", deref(a[0]))
+            m.hooks["bitcoin::Witness::from_slice"] = lambda m_, a, c: deref(a[0])[1] if isinstance(deref(a[0]), tuple) else Term("witness-from", deref(a[0]))
+            r = m.call_callee({"def": ichk, "resolved": ichk, "name": "interpreter_check", "targs": ["C"]}, [ps, Term("secp")])
+            n += 1
+            key = "interpreter_check|finals=%d,%d|refused-at=%s|utxos=%s" % (a0, a1, failing, utxo_ok)
+            bad = []
+            if not utxo_ok:
+                if r.variant != "Err" or calls:
+                    bad.append("without the spent outputs the result is %s after %d input checks" % (repr(r)[:80], len(calls)))
+            else:
+                want_calls = []
+                for i, o in enumerate((a0, a1)):
+                    fs, fw = opts[o]
+                    want_calls.append((i, Bytes("wit%d" % i, False) if fw.variant == "Some" else Bytes("empty-witness", True),
+                                       Bytes("sig%d" % i, False) if fs.variant == "Some" else Bytes("empty-script", True)))
+                    if failing == i:
+                        break
+                got_calls = [(c_[0], c_[1], c_[2]) for c_ in calls]
+                if got_calls != want_calls:
+                    bad.append("inputs checked: %r, expected %r" % (got_calls, want_calls))
+                if not all(c_[3] for c_ in calls) or not all("utxo0" in c_[4] and "utxo1" in c_[4] for c_ in calls):
+                    bad.append("the input checks are not given this PSBT / all its prevouts")
+                if (r.variant == "Ok") != (failing is None):
+                    bad.append("result %s with a refusal at input %s" % (repr(r)[:80], failing))
+            chk.obligation(R, not bad, key, "; ".join(bad[:2]), where="src/psbt/finalizer.rs")
+    except Unsupported as e:
+        chk.fail(R, "unanalysable", "unanalysable: %s" % e, where=e.where, kind="unanalysable")
+    except Panic as e:
+        chk.fail(R, "panic", "panic: %s" % e, where="src/psbt/mod.rs")
+    chk.floor(R, "cases", n, 150)
+
+
+# ---- R14.15 the output updater and the unchecked updaters ---------------------------------------------------------------------------
+
+def check_update_output(chk, F):
+    from ..builtins import deref
+    R = "R14.15"
+    chk.rule(R, "PsbtExt::update_output_with_descriptor updates the output map at the given index against the scriptPubKey of "
+                "the unsigned transaction's output at the same index: an index beyond either list, a refusing updater and a "
+                "scriptPubKey that is not the descriptor's are errors (decision table); the unchecked updaters of Input / Output "
+                "run the same updater on themselves without a scriptPubKey and return the derived descriptor")
+    fn = "<bitcoin::Psbt as psbt::PsbtExt>::update_output_with_descriptor"
+    unchecked = [q for q in F.fns if q.endswith("::update_with_descriptor_unchecked") and q in F.bodies and F.bodies[q].get("thir")]
+    if fn not in F.fns or len(unchecked) != 2:
+        chk.fail(R, "anchor", "update_output_with_descriptor / the two update_with_descriptor_unchecked impls not found (%d)" % len(unchecked),
+                 kind="unanalysable")
+        return
+    helper = F.fn("update_item_with_descriptor_helper", file="psbt/mod.rs")
+    chk.saw(fn, *unchecked)
+    seen = []
+
+    def helper_hook(outcome):
+        def f(m_, a, c):
+            seen.append((deref(a[0]), deref(a[1]), deref(a[2])))
+            if outcome == "err":
+                return err(Term("derivation-error"))
+            return ok((Term("derived"), outcome == "match"))
+        return f
+
+    def txout(tag):
+        return Adt("bitcoin::TxOut", "TxOut", {"script_pubkey": ("spk", tag), "value": ("value", tag)})
+    n = 0
+    try:
+        for n_map, n_tx, idx, outcome in itertools.product((1, 2, 3), (1, 2, 3), (0, 1, 2, 3), ("match", "mismatch", "err")):
+            m = Machine(F, strict=True, hooks={helper: helper_hook(outcome)})
+            seen[:] = []
+            ps = mk_psbt(2, 0, [0])
+            outs = [Term("output-map", i) for i in range(n_map)]
+            ps.fields["outputs"] = PyVec(list(outs))
+            ps.fields["unsigned_tx"].fields["output"] = PyVec([txout("out%d" % i) for i in range(n_tx)])
+            r = m.call_path(fn, [ps, idx, Term("descriptor")])
+            n += 1
+            key = "output|maps=%d|txouts=%d|index=%d|updater=%s" % (n_map, n_tx, idx, outcome)
+            if idx >= n_map:
+                want = "IndexOutOfBounds"
+            elif idx >= n_tx:
+                want = "MissingTxOut"
+            else:
+                want = {"match": "Ok", "mismatch": "MismatchedScriptPubkey", "err": "DerivationError"}[outcome]
+            bad = []
+            got = "Ok" if r.variant == "Ok" else repr(r)
+            if want not in got or (want != "Ok" and r.variant == "Ok"):
+                bad.append("result %s, expected %s" % (got[:120], want))
+            if want in ("Ok", "MismatchedScriptPubkey", "DerivationError"):
+                sp = seen[0][2] if seen else None
+                good = len(seen) == 1 and repr(seen[0][0]) == repr(outs[idx]) and repr(seen[0][1]) == repr(Term("descriptor")) \
+                    and isinstance(sp, Adt) and sp.variant == "Some" and deref(sp.fields["0"]) == ("spk", "out%d" % idx)
+                if not good:
+                    bad.append("the updater is given %r, expected the output map %d, the descriptor and the scriptPubKey of output %d"
+                               % (seen, idx, idx))
+            elif seen:
+                bad.append("the updater runs although the index is out of range")
+            chk.obligation(R, not bad, key, "; ".join(bad), where="src/psbt/mod.rs")
+        for q in unchecked:
+            for outcome in ("match", "mismatch", "err"):
+                m = Machine(F, strict=True, hooks={helper: helper_hook(outcome)})
+                seen[:] = []
+                me = Term("item")
+                r = m.call_path(q, [me, Term("descriptor")])
+                n += 1
+                bad = []
+                if outcome == "err":
+                    if r.variant != "Err" or "derivation-error" not in repr(r):
+                        bad.append("a refusing updater gives %r" % (r,))
+                elif not (r.variant == "Ok" and repr(deref(r.fields["0"])) == repr(Term("derived"))):
+                    bad.append("result %r, expected the derived descriptor" % (r,))
+                sp = seen[0][2] if seen else None
+                if not (len(seen) == 1 and repr(seen[0][0]) == repr(me) and repr(seen[0][1]) == repr(Term("descriptor"))
+                        and isinstance(sp, Adt) and sp.variant == "None"):
+                    bad.append("the updater is given %r, expected (the item itself, the descriptor, no scriptPubKey)" % (seen,))
+                kind = "Input" if "Input" in q else "Output"
+                chk.obligation(R, not bad, "unchecked|%s|updater=%s" % (kind, outcome), "; ".join(bad), where="src/psbt/mod.rs")
+    except Unsupported as e:
+        chk.fail(R, "unanalysable", "unanalysable: %s" % e, where=e.where, kind="unanalysable")
+    except Panic as e:
+        chk.fail(R, "panic", "panic: %s" % e, where="src/psbt/mod.rs")
+    chk.floor(R, "cases", n, 110)
+
+
 def run(chk):
     F = chk.facts()
     chk.explanation = __doc__
@@ -1415,3 +1620,5 @@ def run(chk):
         chk.guard("R14.11", "plan-updater", check_plan_updater, chk, F)
         chk.guard("R14.12", "psbt-satisfier", check_psbt_satisfier, chk, F)
         chk.guard("R14.13", "update-input", check_update_input, chk, F)
+        chk.guard("R14.14", "extract", check_extract, chk, F)
+        chk.guard("R14.15", "update-output", check_update_output, chk, F)
